@@ -23,6 +23,20 @@ instance : Mul (Fp2 p) := ⟨fun a b =>
 def conj (a : Fp2 p) : Fp2 p := ⟨a.re, (p - a.im) % p⟩
 end Fp2
 
+/-- the scalars `GF(p)` themselves (the element type `Fp` of the harness), for running the butterfly programs -/
+structure Zp (p : Nat) where
+  v : Nat
+  deriving Repr, DecidableEq, Inhabited
+
+namespace Zp
+variable {p : Nat}
+instance : Zero (Zp p) := ⟨⟨0⟩⟩
+instance : Add (Zp p) := ⟨fun a b => ⟨(a.v + b.v) % p⟩⟩
+instance : Sub (Zp p) := ⟨fun a b => ⟨(a.v + (p - b.v % p)) % p⟩⟩
+instance : Mul (Zp p) := ⟨fun a b => ⟨(a.v * b.v) % p⟩⟩
+instance : Neg (Zp p) := ⟨fun a => ⟨(p - a.v % p) % p⟩⟩
+end Zp
+
 /-- the cosine element `c_a = (ω^a + ω^-a)/2` -/
 def cosE (p N ω : Nat) (a : Nat) : Nat :=
   let a := a % N
